@@ -274,6 +274,15 @@ func runC12(c *fw.Case) (o fw.Outcome) {
 		o.Digest = fw.Hash(in1, in2)
 		callTolerant(&o, in1, in2)
 	default:
+		if r.Intn(2) == 0 {
+			o.Tag("aimed-length")
+			in1, d := aimedLengthAccept(r)
+			in2, _ := mutateOnce(r, transfer, nasPdu)
+			o.Input = fmt.Sprintf("nas{%s}=%x transfer=%x", d, clip(in1, 160), clip(in2, 80))
+			o.Digest = fw.Hash(in1, in2)
+			callTolerant(&o, in1, in2)
+			return
+		}
 		o.Tag("random")
 		in1 := rbytes(r, r.Intn(4097))
 		in2 := rbytes(r, r.Intn(4097))
@@ -290,6 +299,74 @@ func runC12(c *fw.Case) (o fw.Outcome) {
 		callTolerant(&o, in1, in2)
 	}
 	return
+}
+
+// aimedLengthAccept: an Accept-shaped message without PDU address whose optional part is a chain of well-delimited
+// elements followed by one element whose declared length is aimed at a modular wrap of the walker's position
+// (2^16 or 2^8 arithmetic) back onto an offset it has already visited - or just beyond every boundary of that
+// arithmetic. A walker that terminates on every input must also terminate here; whether it returns or panics is free.
+func aimedLengthAccept(r *rand.Rand) ([]byte, string) {
+	q := pick(r, 0, 1, 9, 255, 256, 300, r.Intn(600))
+	sm := []byte{0x2e, byte(r.Intn(256)), byte(r.Intn(256)), 0xc2, 0x11, byte(q >> 8), byte(q)}
+	sm = append(sm, rbytes(r, q)...)
+	sm = append(sm, 0x06)
+	sm = append(sm, rbytes(r, 6)...)
+	starts := []int{0, 5, 7 + q, len(sm)}
+	tv := []byte{0x59, 0x56}
+	tlv := []byte{0x22, 0x25, 0x17, 0x66}
+	tlve := []byte{0x75, 0x78, 0x79, 0x7b, 0x77}
+	for i, k := 0, r.Intn(5); i < k; i++ {
+		starts = append(starts, len(sm))
+		switch r.Intn(4) {
+		case 0:
+			sm = append(sm, tv[r.Intn(len(tv))], byte(r.Intn(256)))
+		case 1:
+			sm = append(sm, 0x80|byte(r.Intn(16)))
+		case 2:
+			n := r.Intn(12)
+			sm = append(sm, tlv[r.Intn(len(tlv))], byte(n))
+			sm = append(sm, fillNo29(r, n)...)
+		default:
+			n := r.Intn(40)
+			sm = append(sm, tlve[r.Intn(len(tlve))], byte(n>>8), byte(n))
+			sm = append(sm, fillNo29(r, n)...)
+		}
+	}
+	pc := len(sm)
+	target := starts[r.Intn(len(starts))]
+	if r.Intn(3) == 0 {
+		target = r.Intn(pc + 1)
+	}
+	slack := pick(r, 0, 0, 0, 1, -1, 2, -2, 3, -3)
+	var desc string
+	if r.Intn(4) != 0 {
+		l := (target - pc - 3 + slack) & 0xffff
+		if r.Intn(6) == 0 {
+			l = pick(r, 0xffff, 0xfffe, 0xfffd, 0xfffc, 0x8000, 0x7fff, 0xff00, 0xfeff)
+		}
+		sm = append(sm, tlve[r.Intn(len(tlve))], byte(l>>8), byte(l))
+		desc = fmt.Sprintf("qos=%d chain of %d elements, then a 2-octet-length element at offset %d declaring %d octets (position+3+length = %d mod 2^16, an offset already visited)", q, len(starts)-4, pc, l, (pc+3+l)&0xffff)
+	} else {
+		l := (target - pc - 2 + slack) & 0xff
+		sm = append(sm, tlv[r.Intn(len(tlv))], byte(l))
+		desc = fmt.Sprintf("qos=%d chain of %d elements, then a 1-octet-length element at offset %d declaring %d octets (position+2+length = %d mod 2^8)", q, len(starts)-4, pc, l, (pc+2+l)&0xff)
+	}
+	sm = append(sm, fillNo29(r, r.Intn(9))...)
+	mm := []byte{0x7e, 0x00, 0x68, 0x01, byte(len(sm) >> 8), byte(len(sm))}
+	mm = append(mm, sm...)
+	out := append([]byte{0x7e, 0x02, 0, 0, 0, 0, byte(r.Intn(256))}, mm...)
+	return out, desc
+}
+
+// fillNo29: filler octets that are not the PDU address IEI (the walk must not end by accident).
+func fillNo29(r *rand.Rand, n int) []byte {
+	b := rbytes(r, n)
+	for i := range b {
+		if b[i] == 0x29 {
+			b[i] = 0x2a
+		}
+	}
+	return b
 }
 
 // callTolerant: on arbitrary input the functions may panic (that terminates); a spin is caught by the stall monitor.
